@@ -166,7 +166,8 @@ func c17Component(r *vkit.Report, name string, proofPtr any, honest []*big.Int, 
 			// responses for the range-limited secret of a range proof (not its hider, which is unbounded): a shift by the group order leaves every reconstructed commitment as
 			// it was, so the size bound on the response - what makes it a range proof - must be what rejects it
 			// (the bound is a bit length a little above that of honest responses: shift far beyond it)
-			muts = append(muts, mut{"+order<<(len+64)", new(big.Int).Add(orig, new(big.Int).Lsh(c17Order, uint(orig.BitLen())+64))})
+			muts = append(muts, mut{"+order<<(len+64)", new(big.Int).Add(orig, new(big.Int).Lsh(c17Order, uint(orig.BitLen())+64))},
+	mut{"-order<<(len+64)", new(big.Int).Sub(orig, new(big.Int).Lsh(c17Order, uint(orig.BitLen())+64))})
 		}
 		if li+1 < len(leaves) {
 			if nx := leaves[li+1].get(); nx != nil && nx.Cmp(orig) != 0 {
@@ -409,7 +410,7 @@ func c17Degenerate(r *vkit.Report, name string, P *big.Int, ptrs []any, verify f
 func TestVerifC17Components(t *testing.T) {
 	r := vkit.Start(t, "C17", "zk-components", 600*time.Second, 1200*time.Second)
 	defer r.Finish()
-	r.Rule = "components {pedersen, addition, multiplication, exp (with its exp-step OR-compositions, both bit values), prime, is-square} on toy groups: honest instance, then EVERY exported big-integer leaf of the proof x {+1, -1, =0, =nil, =next leaf; for sub-challenges of OR-compositions also +order, +order*2^256, +2^256; for exp and prime every subtree of the proof replaced by the same subtree of a proof built from the same commitments for another challenge; for range-proof responses of the range-limited secret also +order*2^(len+64), far beyond the size bound}; non-trivial = distinct (component, leaf, alteration) that changes the value; oracle: honest => structure ok and commitments-from-proof == commitments-from-secrets; altered => structure check fails or the reconstructed list differs"
+	r.Rule = "components {pedersen, addition, multiplication, exp (with its exp-step OR-compositions, both bit values), prime, is-square} on toy groups: honest instance, then EVERY exported big-integer leaf of the proof x {+1, -1, =0, =nil, =next leaf; for sub-challenges of OR-compositions also +order, +order*2^256, +2^256; for exp and prime every subtree of the proof replaced by the same subtree of a proof built from the same commitments for another challenge; for range-proof responses of the range-limited secret also +-order*2^(len+64), far beyond the size bound on either side}; non-trivial = distinct (component, leaf, alteration) that changes the value; oracle: honest => structure ok and commitments-from-proof == commitments-from-secrets; altered => structure check fails or the reconstructed list differs"
 	ch := big.NewInt(12345)
 	common.VerifSeedCPRNG([32]byte{17, 17, 17})
 	// a 40-bit safe-prime group: with the 23-element group of the package's own tests a changed
